@@ -1,6 +1,7 @@
 package main
 
 import (
+	"fmt"
 	"math/big"
 	"math/rand"
 
@@ -8,6 +9,7 @@ import (
 	"github.com/zenon-network/go-zenon/chain/nom"
 	"github.com/zenon-network/go-zenon/common/types"
 	"github.com/zenon-network/go-zenon/rpc/api"
+	"github.com/zenon-network/go-zenon/vm/embedded/definition"
 	. "zharness/hz"
 )
 
@@ -153,7 +155,95 @@ func (hs *hist) checkHeightList(hl heightList, fnH, fnP string) {
 	}
 }
 
+// pointAnswers: the single-object answers of the ledger api against the ledger read independently (hz.Scanner walks the
+// chain block by block; the momentum store is read by height): account info (height, every balance with its token
+// record), frontier momentum, momentum by hash, momentum before a time
+func (hs *hist) pointAnswers(ledger *api.LedgerApi) {
+	nd, out, rng := hs.nd, hs.out, hs.rng
+	sc := NewScanner(nd).Scan(true) // chain + pool, what the frontier account stores show
+	tok := map[types.ZenonTokenStandard]*definition.TokenInfo{}
+	for _, t := range sc.Tokens {
+		tok[t.TokenStandard] = t
+	}
+	var unknown types.Address
+	rng.Read(unknown[:])
+	unknown[0] = types.UserAddrByte
+	accts := append([]types.Address{unknown, types.TokenContract, types.PlasmaContract, types.PillarContract}, sc.Accounts...)
+	for _, a := range accts {
+		var info *api.AccountInfo
+		var err error
+		if p := protect(func() { info, err = ledger.GetAccountInfoByAddress(a) }); p != nil {
+			out.Oracle(false, "account-info-matches-ledger", M{"address": a.String(), "panic": fmt.Sprint(p)})
+			continue
+		}
+		if err != nil || info == nil {
+			out.Oracle(false, "account-info-matches-ledger", M{"address": a.String(), "err": fmt.Sprint(err)})
+			continue
+		}
+		want := map[string]string{}
+		for z, b := range sc.Bal[a] {
+			if b.Sign() != 0 && tok[z] != nil {
+				want[z.String()] = b.String()
+			}
+		}
+		got := map[string]string{}
+		okTok := true
+		for z, bi := range info.BalanceInfoMap {
+			if bi == nil || bi.Balance == nil || bi.TokenInfo == nil {
+				okTok = false
+				continue
+			}
+			if bi.Balance.Sign() != 0 {
+				got[z.String()] = bi.Balance.String()
+			}
+			t := tok[z]
+			okTok = okTok && t != nil && bi.TokenInfo.ZenonTokenStandard == z && bi.TokenInfo.TokenSymbol == t.TokenSymbol && bi.TokenInfo.Decimals == t.Decimals &&
+				bi.TokenInfo.TotalSupply.Cmp(t.TotalSupply) == 0 && bi.TokenInfo.MaxSupply.Cmp(t.MaxSupply) == 0 && bi.TokenInfo.Owner == t.Owner
+		}
+		h := nd.Ch.GetFrontierAccountStore(a).Identifier().Height
+		out.Oracle(info.Address == a && info.AccountHeight == h && fmt.Sprint(want) == fmt.Sprint(got) && okTok, "account-info-matches-ledger",
+			M{"address": a.String(), "height": info.AccountHeight, "want_height": h, "balances": fmt.Sprint(got), "want_balances": fmt.Sprint(want), "token_records_match": okTok})
+		out.Count("point:account-info")
+	}
+	ms := nd.Ch.GetFrontierMomentumStore()
+	H := ms.Identifier().Height
+	fm, err := ledger.GetFrontierMomentum()
+	out.Oracle(err == nil && fm != nil && fm.Height == H && fm.Hash == ms.Identifier().Hash, "frontier-momentum-matches-ledger", M{"want_height": H, "err": fmt.Sprint(err)})
+	for i := 0; i < 6; i++ {
+		x := 1 + uint64(rng.Int63n(int64(H)))
+		m, _ := ms.GetMomentumByHeight(x)
+		if m == nil {
+			continue
+		}
+		r, err := ledger.GetMomentumByHash(m.Hash)
+		out.Oracle(err == nil && r != nil && r.Height == x && r.Hash == m.Hash && r.PreviousHash == m.PreviousHash && r.Timestamp.Unix() == m.Timestamp.Unix() && len(r.Content) == len(m.Content),
+			"momentum-by-hash-matches-ledger", M{"height": x, "err": fmt.Sprint(err)})
+		// the last momentum strictly before time t: asked at its own second + 1 and at the next momentum's second
+		for _, dt := range []int64{1, 0, -1} {
+			t := m.Timestamp.Unix() + dt
+			var want uint64
+			for y := H; y >= 1; y-- {
+				if c, _ := ms.GetMomentumByHeight(y); c != nil && c.Timestamp.Unix() < t {
+					want = y
+					break
+				}
+			}
+			b, err := ledger.GetMomentumBeforeTime(t)
+			gotH := uint64(0)
+			if b != nil {
+				gotH = b.Height
+			}
+			out.Oracle(err == nil && gotH == want, "momentum-before-time-matches-ledger", M{"time": t, "got": gotH, "want": want, "err": fmt.Sprint(err)})
+		}
+	}
+	var none types.Hash
+	rng.Read(none[:])
+	r, err := ledger.GetMomentumByHash(none)
+	out.Oracle(r == nil || err != nil, "momentum-by-unknown-hash-is-absent", M{"err": fmt.Sprint(err)})
+}
+
 func (hs *hist) byHeightAndPage(ledger *api.LedgerApi) {
+	hs.pointAnswers(ledger)
 	nd, out, rng := hs.nd, hs.out, hs.rng
 	var unknown types.Address
 	rng.Read(unknown[:])
